@@ -1,7 +1,7 @@
 """C20 - planar predicates and spatial queries (structural part)."""
 import ast
 from ..model import norm, AnalysisError, walk_no_nested, params_of
-from ..poly import Poly, to_poly, NotPoly
+from ..poly import Poly, to_poly, NotPoly, range_bounds
 from .. import rules_axis as ra
 from . import c16, c17, c18, c15
 
@@ -77,7 +77,8 @@ def vx1(m, run):
                 lp = getattr(lp, '_sa_parent', None)
             same_idx = lp is not None and isinstance(lp.target, ast.Tuple) and norm(setone[0].targets[0].slice) == lp.target.elts[0].id and d and \
                 norm(d[0].value.args[0]) == lp.target.elts[1].id
-            ok = bool(d) and bool(same_idx) and norm(init[0].value.generators[0].iter) == 'range(len(%s))' % params_of(st.node)[0]
+            rb = range_bounds(init[0].value.generators[0].iter)
+            ok = bool(d) and bool(same_idx) and rb is not None and rb[0] == Poly.const(0) and rb[1] == Poly.atom('len(%s)' % params_of(st.node)[0])
     run.ob('VX1.voxel-grid', st.key + ' :: filled flag', ok, 'filled[k] = 1 exactly when the predicate holds for voxel k, 0 otherwise' if ok else 'serial occupancy flags are not the predicate value per voxel', site(st))
 
 
@@ -113,7 +114,15 @@ def al7(m, run):
         for n in ast.walk(ast.Module(body=body, type_ignores=[])):
             if isinstance(n, ast.If) and isinstance(n.test, ast.Compare) and isinstance(n.test.left, ast.Call) and norm(n.test.left.func) == 'is_left':
                 inc = [s for s in n.body if isinstance(s, ast.AugAssign)]
-                args = [norm(a) for a in n.test.left.args]
+                args = []
+                for a in n.test.left.args:
+                    if isinstance(a, ast.Subscript):
+                        try:
+                            args.append('%s[%s]' % (norm(a.value), to_poly(a.slice)))
+                        except NotPoly:
+                            args.append(norm(a))
+                    else:
+                        args.append(norm(a))
                 return type(n.test.ops[0]), norm(n.test.comparators[0]), (type(inc[0].op), norm(inc[0].value)) if inc else None, args
         return None
     start = ycmp(o.test)
@@ -127,16 +136,16 @@ def al7(m, run):
            'downward-edge test (else branch) is `%s`; it must be V[i+1].y <= P.y so that an edge ending exactly at P.y is counted by exactly one of the two rules'
            % (norm(dn_in[0].test) if dn_in else '?'), site(fi, o))
     su, sd = side(o.body), side(o.orelse)
-    edge = ['%s[%s]' % (vs, i), '%s[%s + 1]' % (vs, i), pt]
+    edge = ['%s[%s]' % (vs, Poly.atom(i)), '%s[%s]' % (vs, Poly.atom(i) + 1), pt]
     ok_su = su is not None and su[0] is ast.Gt and su[1] == '0' and su[2] == (ast.Add, '1') and su[3] == edge
     ok_sd = sd is not None and sd[0] is ast.Lt and sd[1] == '0' and sd[2] == (ast.Sub, '1') and sd[3] == edge
     run.ob('AL7.crossing-rule', fi.key + ' :: upward side test', ok_su, 'P strictly left of the upward edge: wn += 1' if ok_su else 'upward edge side test/increment is %s' % (su,), site(fi, o))
     run.ob('AL7.crossing-rule', fi.key + ' :: downward side test', ok_sd, 'P strictly right of the downward edge: wn -= 1' if ok_sd else 'downward edge side test/increment is %s' % (sd,), site(fi, o))
     # every edge V[i] -> V[i+1], i = 0 .. n-1 with n = len(vertices) - 1 (closed polygon, last vertex repeats the first)
     try:
-        hi = to_poly(lp.iter.args[-1], env=lambda nm: next((x.value for x in walk_no_nested(fi.node) if isinstance(x, ast.Assign) and isinstance(x.targets[0], ast.Name)
-                                                            and x.targets[0].id == nm.id), None))
-        okr = hi == Poly.atom('len(%s)' % vs) - 1 and len(lp.iter.args) == 1
+        rb = range_bounds(lp.iter, env=lambda nm: next((x.value for x in walk_no_nested(fi.node) if isinstance(x, ast.Assign) and isinstance(x.targets[0], ast.Name)
+                                                         and x.targets[0].id == nm.id), None))
+        okr = rb is not None and rb[0] == Poly.const(0) and rb[1] == Poly.atom('len(%s)' % vs) - 1
     except NotPoly:
         okr = False
     run.ob('AL7.crossing-rule', fi.key + ' :: all edges', okr, 'edges 0 .. len(vertices) - 2' if okr else 'edge loop does not cover every edge of the closed polygon', site(fi, lp))
